@@ -127,7 +127,7 @@ func drawC01(t *rapid.T) C01Case {
 		Unicode:   rapid.IntRange(0, 5).Draw(t, "unicode") == 0,
 		WideDates: true,
 	}
-	gen.MaybeLarge(t, &cfg, 40)
+	gen.MaybeLarge(t, &cfg, 4)
 	j := gen.GenJournal(t, cfg)
 	if rapid.IntRange(0, 3).Draw(t, "shuffle") == 0 {
 		j.Directives = gen.Shuffle(t, j.Directives)
